@@ -110,3 +110,29 @@ Proof. destruct (schedule k) as [HJ Hc]. set (i := Z.of_nat k) in *. assert (Hi 
   - replace (Z.min cap (sched i) <? cap) with false by lia. replace (sched i <? cap) with false by lia.
     rewrite !andb_false_r. reflexivity. Qed.
 End R.
+
+(* ---- resumed training: the machine restarted with J0 steps already done (iteration numbers restart at 0 and the
+   period counter is re-armed, which is all init_rar does) ---- *)
+Section Resume.
+Variables start every cap J0 : Z.
+Hypothesis Hev : 1 <= every. Hypothesis Hst : 0 <= start. Hypothesis HJ0 : 0 <= J0 <= cap.
+Fixpoint arun_from (k : nat) : Z * Z :=
+  match k with O => (every - 1, J0) | S k' => atrig start every cap (Z.of_nat k') (arun_from k') end.
+(* it is the fresh machine of capacity cap - J0, shifted by J0 *)
+Lemma arun_from_shift k : arun_from k = (fst (arun start every (cap - J0) k), J0 + snd (arun start every (cap - J0) k)).
+Proof. induction k as [|k IH]; [cbn [arun_from arun fst snd]; f_equal; lia|].
+  cbn [arun_from arun]. rewrite IH. destruct (arun start every (cap - J0) k) as [c j]. cbn [fst snd].
+  unfold atrig, aproceed. replace (J0 + j <? cap) with (j <? cap - J0) by lia.
+  destruct ((start <=? Z.of_nat k) && (every - 1 =? c) && (j <? cap - J0)); cbn [fst snd]; f_equal; lia. Qed.
+(* steps done after k further iterations: the J0 earlier ones plus the scheduled ones, capped by the capacity *)
+Theorem schedule_from k : snd (arun_from k) = Z.min cap (J0 + sched start every (Z.of_nat k)).
+Proof. rewrite arun_from_shift. cbn [snd].
+  destruct (schedule start every (cap - J0) Hev Hst ltac:(lia) k) as [H _]. rewrite H. lia. Qed.
+Theorem step_iff_from k :
+  aproceed start every cap (Z.of_nat k) (fst (arun_from k)) (snd (arun_from k)) =
+  (start <=? Z.of_nat k) && ((Z.of_nat k - start) mod every =? 0) && (J0 + sched start every (Z.of_nat k) <? cap).
+Proof. rewrite arun_from_shift. cbn [fst snd].
+  pose proof (step_iff start every (cap - J0) Hev Hst ltac:(lia) k) as H. unfold aproceed in *.
+  replace (J0 + snd (arun start every (cap - J0) k) <? cap) with (snd (arun start every (cap - J0) k) <? cap - J0) by lia.
+  rewrite H. f_equal. lia. Qed.
+End Resume.
